@@ -166,6 +166,18 @@ def handle (op : String) (a : Json) : P Json := do
     match flagsOf (← grpOfJson (← field a "tree")) with
     | none => pure Json.null
     | some f => pure <| resJ (fun r => Json.arr (r.map fun l => Json.arr (l.map itemJ).toArray).toArray) (drawScenarioC f os)
+  | "frames" =>
+    -- a history of frames on one renderer: [{tree, obstacles, draw_network, keep}] -> what every frame shows
+    let mut frs : List Frame := []
+    for j in ← asArr (← field a "frames") do
+      match flagsOf (← grpOfJson (← field j "tree")) with
+      | none => throw "frames: flagsOf failed"
+      | some f =>
+        frs := frs ++ [{ flags := f, obstacles := ← getList obstOfJson j "obstacles",
+                         drawNetwork := ← getBool j "draw_network", keepStatic := ← getBool j "keep" }]
+    pure <| Json.arr ((showFrames ⟨[], 0⟩ frs).map fun b => Json.mkObj [
+      ("patches", Json.arr (b.patches.map fun l => Json.arr (l.map itemJ).toArray).toArray),
+      ("networks", natJ b.networks)]).toArray
   | "net" =>
     let ls ← getList (fun j => do pure ({ id := ← getInt j "id", leftBorder := ← getBool j "left_border" } : LaneletInfo)) a "lanelets"
     let f : NetFlags := { drawIds := ← optIds a "draw_ids", borderVertices := ← getBool a "border_vertices",
